@@ -202,6 +202,9 @@ def damage(b, kind, rng):
         b[-4:] = rng.choice([b'XXXX', b'7778', b'\x00\x00\x00\x00', b'777 '])
     elif kind in ('undef-element', 'undef-sequence'):
         n_desc = (so['l3'] - 7) // 2
+        if n_desc <= 0:
+            b[-4:] = b'XXXX'             # no descriptor to replace: damage the stop signature instead
+            return bytes(b)
         k = rng.randrange(n_desc)
         code = 0x3FFF if kind == 'undef-element' else 0xFFFF       # 063255 / 363255
         b[so['o3'] + 7 + 2 * k: so['o3'] + 9 + 2 * k] = struct.pack('>H', code)
